@@ -27,6 +27,11 @@ pub fn serialize(
 pub fn deserialize(data: Bytes) -> Result<RtmpMessage, MessageDeserializationError> {
     let mut cursor = Cursor::new(data);
     let mut arguments = rml_amf0::deserialize(&mut cursor)?;
+    if arguments.len() < 3 {
+        // A command always has a name, transaction id and command object
+        return Err(MessageDeserializationError::InvalidMessageFormat);
+    }
+
 
     let command_name: String;
     let transaction_id: f64;
